@@ -172,7 +172,7 @@ theorem T1_inv (r a a' b b' : ℂ) (mp m : ℤ) (hmp : mp.natAbs ≤ 1) (hm : m.
     T1 r a' a (-b) (-b') mp m = T1 r a' a b' b m mp := by
   have h1 : mp = -1 ∨ mp = 0 ∨ mp = 1 := by omega
   have h2 : m = -1 ∨ m = 0 ∨ m = 1 := by omega
-  rcases h1 with rfl | rfl | rfl <;> rcases h2 with rfl | rfl | rfl <;> simp [T1] <;> ring
+  rcases h1 with rfl | rfl | rfl <;> rcases h2 with rfl | rfl | rfl <;> simp only [T1] <;> grind
 
 /-- the table is even in (a, a', b, b') -/
 theorem T1_neg (r a a' b b' : ℂ) (mp m : ℤ) :
@@ -214,7 +214,7 @@ theorem T2_inv (r a a' b b' : ℂ) (mp m : ℤ) (hmp : mp.natAbs ≤ 2) (hm : m.
   have h1 : mp = -2 ∨ mp = -1 ∨ mp = 0 ∨ mp = 1 ∨ mp = 2 := by omega
   have h2 : m = -2 ∨ m = -1 ∨ m = 0 ∨ m = 1 ∨ m = 2 := by omega
   rcases h1 with rfl | rfl | rfl | rfl | rfl <;> rcases h2 with rfl | rfl | rfl | rfl | rfl <;>
-    simp [T2] <;> ring
+    simp only [T2] <;> grind
 
 theorem T2_neg (r a a' b b' : ℂ) (mp m : ℤ) :
     T2 r (-a) (-a') (-b) (-b') mp m = T2 r a a' b b' mp m := by
@@ -230,6 +230,93 @@ theorem T2_unitary (r a a' b b' : ℂ) (hr : r ^ 2 = 6) (mp m : ℤ)
   have h2 : m = -2 ∨ m = -1 ∨ m = 0 ∨ m = 1 ∨ m = 2 := by omega
   rcases h1 with rfl | rfl | rfl | rfl | rfl <;> rcases h2 with rfl | rfl | rfl | rfl | rfl <;>
     simp [T2] <;> grind
+
+/-! ### from the documented sum / the model to the tables -/
+
+theorem docD1_T (A B : ℂ) (mp m : ℤ) (hmp : mp.natAbs ≤ 1) (hm : m.natAbs ≤ 1) :
+    docD 1 A B mp m = T1 (Real.sqrt 2 : ℂ) A (conj A) B (conj B) mp m := by
+  rw [docD_one _ _ mp m hmp hm]; rfl
+
+theorem docD2_T (A B : ℂ) (mp m : ℤ) (hmp : mp.natAbs ≤ 2) (hm : m.natAbs ≤ 2) :
+    docD 2 A B mp m = T2 (Real.sqrt 6 : ℂ) A (conj A) B (conj B) mp m := by
+  rw [docD_two _ _ mp m hmp hm]; rfl
+
+section
+variable {μ : Type} [Mem μ ℝ] [LawfulMem μ ℝ]
+
+/-- `DDef.D_ell1` for a rotor given as a `Quat` -/
+theorem objD1_doc (L : ℕ) (hL : 1 ≤ L) (st : μ) (R : Quat ℝ) (hR : R.w ^ 2 + R.x ^ 2 + R.y ^ 2 + R.z ^ 2 = 1)
+    (imsqrt : Cx ℝ → ℝ) (hs : ∀ w : Cx ℝ, w.re ^ 2 + w.im ^ 2 = 1 → 2 * (imsqrt w) ^ 2 = 1 - w.re)
+    (mp m : ℤ) (hmp : mp.natAbs ≤ 1) (hm : m.natAbs ≤ 1) :
+    toC (objD L st R.w R.x R.y R.z imsqrt 1 mp m) = docD 1 (QA R) (QB R) mp m := by
+  rw [docD_one _ _ mp m hmp hm]
+  exact objD_one_eq_table L st R.w R.x R.y R.z hR imsqrt hs hL mp m hmp hm
+
+/-- `DDef2.D_ell2` for a rotor given as a `Quat` -/
+theorem objD2_doc (L : ℕ) (hL : 2 ≤ L) (st : μ) (R : Quat ℝ) (hR : R.w ^ 2 + R.x ^ 2 + R.y ^ 2 + R.z ^ 2 = 1)
+    (imsqrt : Cx ℝ → ℝ) (hs : ∀ w : Cx ℝ, w.re ^ 2 + w.im ^ 2 = 1 → 2 * (imsqrt w) ^ 2 = 1 - w.re)
+    (mp m : ℤ) (hmp : mp.natAbs ≤ 2) (hm : m.natAbs ≤ 2) :
+    toC (objD L st R.w R.x R.y R.z imsqrt 2 mp m) = docD 2 (QA R) (QB R) mp m := by
+  rw [docD_two _ _ mp m hmp hm]
+  exact objD_two_eq_table L st R.w R.x R.y R.z hR imsqrt hs hL mp m hmp hm
+
+end
+
+/-! ### ℓ = 1 in the Cartesian basis -/
+
+/-- the vector part of R·(0, v)·R̄ -/
+def rotVec (R : Quat ℝ) (v : Vec3 ℝ) : Vec3 ℝ :=
+  ⟨(qmul (qmul R ⟨0, v.x, v.y, v.z⟩) (qconj R)).x, (qmul (qmul R ⟨0, v.x, v.y, v.z⟩) (qconj R)).y,
+   (qmul (qmul R ⟨0, v.x, v.y, v.z⟩) (qconj R)).z⟩
+
+/-- weight m of an ℓ = 1 triple `(w₋₁, w₀, w₁)` (fields `x`, `y`, `z` of the `Vec3`), read in ℂ -/
+def wAt (w : Vec3 (Cx ℝ)) (m : ℤ) : ℂ := if m = -1 then toC w.x else if m = 0 then toC w.y else toC w.z
+
+theorem toC_I : toC (Cx.I : Cx ℝ) = Complex.I := by
+  apply Complex.ext <;> simp [toC, Cx.I]
+
+theorem QA_eq (R : Quat ℝ) : QA R = (R.w : ℂ) + (R.z : ℂ) * Complex.I := by
+  apply Complex.ext <;> simp [QA, Ra]
+theorem QB_eq (R : Quat ℝ) : QB R = (R.y : ℂ) + (R.x : ℂ) * Complex.I := by
+  apply Complex.ext <;> simp [QB, Rb]
+theorem QA_conj_eq (R : Quat ℝ) : conj (QA R) = (R.w : ℂ) - (R.z : ℂ) * Complex.I := by
+  apply Complex.ext <;> simp [QA, Ra]
+theorem QB_conj_eq (R : Quat ℝ) : conj (QB R) = (R.y : ℂ) - (R.x : ℂ) * Complex.I := by
+  apply Complex.ext <;> simp [QB, Rb]
+
+theorem wAt_vec (K : ConvConsts ℝ) (v : Vec3 ℝ) :
+    wAt (vectorAsEll1R K v) (-1) = ((v.x : ℂ) + Complex.I * (v.y : ℂ)) * (K.sqrt2pi3 : ℂ) ∧
+    wAt (vectorAsEll1R K v) 0 = (v.z : ℂ) * (K.sqrt4pi3 : ℂ) ∧
+    wAt (vectorAsEll1R K v) 1 = (-(v.x : ℂ) + Complex.I * (v.y : ℂ)) * (K.sqrt2pi3 : ℂ) := by
+  refine ⟨?_, ?_, ?_⟩ <;>
+    simp [wAt, vectorAsEll1R, toC_mulr, toC_add, toC_mul, toC_ofRe, toC_I]
+
+/-- Rotating the ℓ = 1 weights of the real vector v with the table of R̄ (row index summed, as `f @ 𝔇` does) gives the
+    weights of R v R̄; needs only `sqrt4pi3 = √2 · sqrt2pi3`; no unit-norm condition (both sides scale by |R|²). -/
+theorem rot_T1 (K : ConvConsts ℝ) (hK : K.sqrt4pi3 = Real.sqrt 2 * K.sqrt2pi3) (R : Quat ℝ) (v : Vec3 ℝ)
+    (m : ℤ) (hm : m.natAbs ≤ 1) :
+    wAt (vectorAsEll1R K v) (-1)
+        * T1 (Real.sqrt 2 : ℂ) (conj (QA R)) (QA R) (-QB R) (-conj (QB R)) (-1) m
+      + wAt (vectorAsEll1R K v) 0
+        * T1 (Real.sqrt 2 : ℂ) (conj (QA R)) (QA R) (-QB R) (-conj (QB R)) 0 m
+      + wAt (vectorAsEll1R K v) 1
+        * T1 (Real.sqrt 2 : ℂ) (conj (QA R)) (QA R) (-QB R) (-conj (QB R)) 1 m
+      = wAt (vectorAsEll1R K (rotVec R v)) m := by
+  obtain ⟨e1, e2, e3⟩ := wAt_vec K v
+  obtain ⟨f1, f2, f3⟩ := wAt_vec K (rotVec R v)
+  have hr := sqrt2C_sq
+  have hI := Complex.I_mul_I
+  have h2 : m = -1 ∨ m = 0 ∨ m = 1 := by omega
+  rw [e1, e2, e3, QA_eq, QB_eq, QA_conj_eq, QB_conj_eq]
+  rcases h2 with rfl | rfl | rfl
+  · rw [f1]; simp only [T1, rotVec, qmul, qconj, hK]; push_cast; simp; grind
+  · rw [f2]; simp only [T1, rotVec, qmul, qconj, hK]; push_cast; simp; grind
+  · rw [f3]; simp only [T1, rotVec, qmul, qconj, hK]; push_cast; simp; grind
+
+theorem Kreal_ratio : Kreal.sqrt4pi3 = Real.sqrt 2 * Kreal.sqrt2pi3 := by
+  show Real.sqrt (4 * Real.pi / 3) = Real.sqrt 2 * Real.sqrt (2 * Real.pi / 3)
+  rw [← Real.sqrt_mul (by norm_num)]
+  congr 1; ring
 
 end DHom
 end
